@@ -20,6 +20,7 @@ import (
 	"github.com/refraction-networking/utls/zz_verif/refsrv"
 	"github.com/refraction-networking/utls/zz_verif/simnet"
 	"github.com/refraction-networking/utls/zz_verif/simrt"
+	"github.com/refraction-networking/utls/zz_verif/wire"
 )
 
 // C33: hostile server input never crashes or hangs a uTLS client.
@@ -649,6 +650,25 @@ func frameRecords(ch *simrt.Chooser, msgs []byte, recVersion uint16) []byte {
 	return out
 }
 
+// helloBytes serialises a ClientHello with the fields of h and the given extensions.
+func helloBytes(h *wire.ClientHello, exts []wire.Extension) []byte {
+	b := []byte{byte(h.LegacyVersion >> 8), byte(h.LegacyVersion)}
+	b = append(b, h.Random...)
+	b = append(append(b, byte(len(h.SessionID))), h.SessionID...)
+	b = append(b, byte(len(h.CipherSuites)*2>>8), byte(len(h.CipherSuites)*2))
+	for _, cs := range h.CipherSuites {
+		b = append(b, byte(cs>>8), byte(cs))
+	}
+	b = append(append(b, byte(len(h.Compression))), h.Compression...)
+	var eb []byte
+	for _, e := range exts {
+		eb = append(eb, byte(e.Type>>8), byte(e.Type), byte(len(e.Data)>>8), byte(len(e.Data)))
+		eb = append(eb, e.Data...)
+	}
+	b = append(append(b, byte(len(eb)>>8), byte(len(eb))), eb...)
+	return append([]byte{1, byte(len(b) >> 16), byte(len(b) >> 8), byte(len(b))}, b...)
+}
+
 func runC34(c *Ctx) {
 	capStack()
 	if c.Run%5 == 4 {
@@ -682,8 +702,41 @@ func runC34(c *Ctx) {
 	gb := make([]byte, ch.Range(0, 120, "extra-len"))
 	ch.Bytes(gb, "extra")
 	var stream []byte
-	extra := []string{"none", "none", "ee-after", "cc-after", "ee-before", "cc-before", "second-hello", "garbage-msg", "ee-structured", "cc-structured"}[ch.Pick(10, "extra")]
+	var typeSwitch [2][]byte
+	extra := []string{"none", "none", "ee-after", "cc-after", "ee-before", "cc-before", "second-hello", "garbage-msg", "ee-structured", "cc-structured", "ech-type-switch"}[ch.Pick(11, "extra")]
 	switch extra {
+	case "ech-type-switch":
+		// two well-formed hellos back to back: the first without key shares (the server answers with a
+		// HelloRetryRequest) and with an encrypted_client_hello extension of one type, the second with
+		// shares and an extension of the other type whose parameters are drawn small (zero included)
+		var base []wire.Extension
+		for _, e := range dry.Extensions {
+			if e.Type != 0xfe0d && e.Type != 41 {
+				base = append(base, e)
+			}
+		}
+		innerExt := wire.Extension{Type: 0xfe0d, Data: []byte{1}}
+		pl := make([]byte, ch.Range(0, 40, "ech-payload-len"))
+		ch.Bytes(pl, "ech-payload")
+		enc := make([]byte, []int{0, 0, 32}[ch.Pick(3, "ech-enc-len")])
+		outer := []byte{0, 0, byte(ch.Pick(2, "ech-kdf")), 0, byte(ch.Pick(2, "ech-aead")), byte(ch.Pick(3, "ech-config-id")), byte(len(enc) >> 8), byte(len(enc))}
+		outer = append(append(outer, enc...), byte(len(pl)>>8), byte(len(pl)))
+		outerExt := wire.Extension{Type: 0xfe0d, Data: append(outer, pl...)}
+		first, second := innerExt, outerExt
+		if ch.Bool(30, "outer-first") {
+			first, second = outerExt, innerExt
+		}
+		var e1 []wire.Extension
+		for _, e := range base {
+			if e.Type == 51 {
+				e = wire.Extension{Type: 51, Data: []byte{0, 0}}
+			}
+			e1 = append(e1, e)
+		}
+		typeSwitch[0], typeSwitch[1] = helloBytes(dry, append(e1, first)), helloBytes(dry, append(append([]wire.Extension(nil), base...), second))
+		stream = append(append([]byte(nil), typeSwitch[0]...), typeSwitch[1]...)
+		hello = nil
+		c.Probe("ech-type-switch")
 	case "ee-after":
 		stream = append(append(stream, hello...), mk(8, gb)...)
 	case "cc-after":
@@ -709,6 +762,15 @@ func runC34(c *Ctx) {
 		stream = hello
 	}
 	wireBytes := frameRecords(ch, stream, []uint16{0x0301, 0x0303, 0x0300, 0x0304}[ch.Pick(4, "recver")])
+	if extra == "ech-type-switch" && len(typeSwitch[0]) > 0 {
+		// each hello in a record of its own (a second hello in the same record as the first is
+		// refused before it is looked at)
+		wireBytes = nil
+		for _, h := range typeSwitch {
+			wireBytes = append(wireBytes, 22, 3, 3, byte(len(h)>>8), byte(len(h)))
+			wireBytes = append(wireBytes, h...)
+		}
+	}
 	tail := ch.Pick(3, "tail") // 0: close, 1: more garbage records, 2: wait for the server
 	tailBytes := make([]byte, ch.Range(1, 600, "tail-len"))
 	ch.Bytes(tailBytes, "tail")
